@@ -11,8 +11,8 @@ CONSTANTS H, F, ForkAt, CpHs, MaxEnv, Emit, MaxConnects, MaxRestarts, Scenario
 ParV == [b \in 1 .. (H + F) |-> IF b <= H THEN b - 1 ELSE IF b = H + 1 THEN ForkAt ELSE b - 1]
 CpsV == {h \in CpHs : h <= H}        \* checkpoints are honest-chain blocks (block id = height on the honest chain)
 
-VARIABLES hist, nenv
-msyvars == <<syvars, hist, nenv>>
+VARIABLES hist, nenv, knownOnly, dropped     \* dropped: an inv was dropped by handleInvMsg's "not the sync peer and not current" rule
+msyvars == <<syvars, hist, nenv, dropped, knownOnly>>   \* knownOnly: a headers reply brought no new longest-chain header ("do nothing")
 
 NB == H + F
 StV == [k \in 1 .. (NB + 1) |-> IF (k - 1) \in DOMAIN rows' THEN rows'[k - 1].st ELSE "-"]
@@ -21,7 +21,7 @@ BestOff == LET off == {nd'[p].best : p \in {q \in Peers : nd'[q].conn}} IN
 Obs == [sent |-> lastSent', tip |-> TipOf(rows'), st |-> StV, sync |-> syncPeer', quiet |-> (mq' = <<>>),
         bestoff |-> BestOff, banned |-> SetToSeq(ban')]
 
-MSyInit == SyInit /\ hist = <<>> /\ nenv = 0
+MSyInit == SyInit /\ hist = <<>> /\ nenv = 0 /\ dropped = FALSE /\ knownOnly = FALSE
 
 \* scenario constraints keep the replay deterministic and inside the property's premises:
 \*  - at most one sync-peer candidate can be chosen at any time (the code picks randomly among several)
@@ -29,13 +29,13 @@ DeterministicChoice == \A r \in {rows} : Cardinality(Candidates(pk, rows)) <= 1 
 
 NConn == Cardinality({k \in 1 .. Len(hist) : hist[k].kind = "env" /\ hist[k].op = "connect"})
 NRst  == Cardinality({k \in 1 .. Len(hist) : hist[k].kind = "env" /\ hist[k].op = "restart"})
-LogEnv(rec) == hist' = Append(hist, rec @@ [kind |-> "env"]) /\ nenv' = nenv + 1
+LogEnv(rec) == hist' = Append(hist, rec @@ [kind |-> "env"]) /\ nenv' = nenv + 1 /\ UNCHANGED <<dropped, knownOnly>>
 Pending == {q \in Peers : nd[q].conn /\ nq[q] # <<>>}
 \* phase 2: after the MaxEnv environment events every connected node keeps answering (lowest id first) until nothing is asked
 MDrain ==
   /\ mq = <<>> /\ nenv >= MaxEnv /\ Pending # {}
   /\ LET p == Min(Pending) IN NodeReply(p) /\ hist' = Append(hist, [op |-> "reply", p |-> p, ids |-> ReplyIds(p, Head(nq[p])), kind |-> "env"])
-  /\ UNCHANGED nenv
+  /\ UNCHANGED <<nenv, dropped, knownOnly>>
 
 MEnv ==
   /\ mq = <<>> /\ nenv < MaxEnv
@@ -49,12 +49,21 @@ MEnv ==
           /\ Par[b] = nd[p].best        \* the node's chain grows by one block
           /\ NodeAnnounce(p, b, how) /\ LogEnv([op |-> "announce", p |-> p, b |-> b, how |-> how])
      \/ (NRst < MaxRestarts /\ RestartSrv /\ LogEnv([op |-> "restart"]))
-MMgr == MgrStep /\ hist' = Append(hist, [kind |-> "mgr"] @@ Obs) /\ UNCHANGED nenv
+InvDropped == LET m == Head(mq) IN m.t = "inv" /\ pk[m.p].known /\ m.p # syncPeer /\ ~MgrCurrent
+\* handleHeadersMsg: "If all the headers received where rejected or already in the database, don't request more headers
+\* from that peer" - finalHash stays nil whenever the batch held no header that ended on the longest chain.  This is the
+\* statement's own carve-out ("the implementation stops asking a peer whose reply contained no longest-chain header").
+KnownOnlyReply == LET m == Head(mq) IN
+  /\ m.t = "hdrs" /\ pk[m.p].known /\ hf /\ m.ids # <<>>
+  /\ LET res == Ingest(rows, m.ids, 1, [rows |-> rows, final |-> 0, gotCp |-> FALSE, stop |-> ""], nextCp)
+     IN res.stop = "" /\ res.final = 0
+MMgr == MgrStep /\ hist' = Append(hist, [kind |-> "mgr"] @@ Obs) /\ UNCHANGED nenv /\ dropped' = (dropped \/ InvDropped)
+        /\ knownOnly' = (knownOnly \/ KnownOnlyReply)
 
 MSyNext == MMgr \/ MEnv \/ MDrain
 MSySpec == MSyInit /\ [][MSyNext]_msyvars /\ WF_msyvars(MMgr)
 \* everything that guards an action must be in the view, or TLC merges states with different futures
-SyView == <<syvars, nenv, NConn, NRst>>
+SyView == <<syvars, nenv, NConn, NRst, dropped, knownOnly>>
 
 \* random choice among several candidates: only single-candidate situations are generated for replay
 ChoiceConstraint == Cardinality(Candidates(pk, rows)) <= 1 \/ syncPeer # 0 \/ mq = <<>>
@@ -69,13 +78,27 @@ BestNow == IF OffNow = {} THEN -1 ELSE CHOOSE b \in OffNow : \A c \in OffNow : H
 \* tip reported has at least that work (all blocks here have work 1: work = height; an equal-work competitor may stay "S")
 BestSet == {b \in OffNow : \A c \in OffNow : HOf(c) <= HOf(b)}
 Conv == \A b \in BestSet : b = 0 \/ (b \in Stored /\ rows[Tip].height >= HOf(b))
+\* precise causes, so that nothing hides behind a catch-all:
+\*  O1 a block of the best chain offered is stored as an ORPHAN: it was announced by `headers` before its parent was
+\*     known, and a stored header is never re-linked (resubmission changes nothing, C01), so the chain above it can never connect
+\*  L3 the sync peer is connected and does not have (one of) the best chain(s) offered: it lags, or sits on another branch of
+\*     equal height; the peer that has it is not asked while the sync peer stays
+\*  L2 there is no sync peer although a node with the best chain is connected (it was struck from the candidates)
+\*  L1 an inv of a peer that is not the sync peer was dropped while the service was not current (history flag `dropped`)
+\*  carve-out: a reply without any header that lands on the longest chain (all known already because another peer was
+\*     quicker, or all stale because a competing branch of equal work was stored first) ends the exchange with that peer
+OrphanOnBest == \E b \in BestSet : \E x \in ChainOf(b) : x \in Stored /\ rows[x].st = "O"
 Why == IF Conv THEN ""
-       ELSE IF syncPeer # 0 /\ nd[syncPeer].conn /\ HOf(nd[syncPeer].best) < HOf(BestNow) THEN "L3-lagging-sync-peer"
+       ELSE IF OrphanOnBest THEN "O1-orphaned-announcement"
+       ELSE IF syncPeer # 0 /\ nd[syncPeer].conn /\ (\E b \in BestSet : b \notin ChainOf(nd[syncPeer].best)) THEN "L3-lagging-sync-peer"
        ELSE IF syncPeer = 0 THEN "L2-no-sync-candidate-left"
-       ELSE "L1-announcement-not-followed"
+       ELSE IF dropped THEN "L1-announcement-not-followed"
+       ELSE IF knownOnly THEN "carve-out:reply-without-longest-chain-header"
+       ELSE "unexplained"
 Final == [st |-> StNow, tip |-> Tip, bestoff |-> BestNow, best |-> SetToSeq(BestSet \ {0}), conv |-> Conv, banned |-> SetToSeq(ban), why |-> Why]
 EmitInv == (Emit = "paths" /\ Terminal) => PrintT(ToJson([hist |-> hist, scn |-> Scn, final |-> Final]))
 \* C06 on the specification: whenever the engine as designed ends behind the best chain offered, one of the listed
 \* limitations explains it (any other way of not converging is a counter-example)
-ConvergesOrListed == Terminal => (Why = "" \/ Why \in Findings)
+Excused == {"carve-out:reply-without-longest-chain-header"}
+ConvergesOrListed == Terminal => (Why = "" \/ Why \in Findings \/ Why \in Excused)
 =============================================================================
